@@ -204,7 +204,9 @@ func (g *genState) op(kind string) (Op, bool) {
 			}
 			if n > 50 {
 				it.Gated = false
-				it.ID = ""
+				if !inMem(q) {
+					it.ID = ""
+				}
 			}
 			if it.Gated {
 				g.gated = append(g.gated, it.N)
